@@ -126,14 +126,15 @@ def oddFromBeHex (n : Nat) (hex : List Nat) : Option (List Nat) :=
   | some l => if l.headD 0 % 2 = 1 then some l else none
   | none => none
 
-/-- `Odd::<Uint<n>>::from_le_hex` AS WRITTEN (src/odd.rs:73-77): it calls `Uint::from_be_hex`. -/
-def oddFromLeHexAsWritten (n : Nat) (hex : List Nat) : Option (List Nat) := oddFromBeHex n hex
-
-/-- what `Odd::from_le_hex` is documented to do -/
-def oddFromLeHexSpec (n : Nat) (hex : List Nat) : Option (List Nat) :=
+/-- `Odd::<Uint<n>>::from_le_hex` (src/odd.rs:73-77, after fix dd30bc0): `Uint::from_le_hex`, then
+    `assert!(uint.is_odd())` -/
+def oddFromLeHex (n : Nat) (hex : List Nat) : Option (List Nat) :=
   match fromLeHex n hex with
   | some l => if l.headD 0 % 2 = 1 then some l else none
   | none => none
+
+/-- keep only odd values (spec side of the `Odd` constructors) -/
+def oddOnly (v : Nat) : Option Nat := if v % 2 = 1 then some v else none
 
 /-- `NonZero::new(x)` as (value, is_some) -/
 def nzNew (l : List Nat) : Option (List Nat) := if l.all (· = 0) then none else some l
